@@ -1015,9 +1015,56 @@ pub struct C05Case {
     pub b: u32,
     pub nchrom: u32,
     pub bed: bool,
+    /// bigBed only: every 4th item is long (ends after the next four items' ends), so block
+    /// spans are not monotone in their end and nest inside each other
+    #[serde(default)]
+    pub nested: bool,
 }
 
 pub struct C05;
+
+fn c05_bed_q<R: bigtools::BBIFileRead>(
+    rd: &mut BigBedRead<R>,
+    name: &str,
+    s: u32,
+    e: u32,
+    items: &[(u32, u32)],
+) -> Result<(), String> {
+    let g = rd
+        .get_interval(name, s, e)
+        .map_err(|e| format!("query error: {}", e))
+        .and_then(collect_bed)?;
+    let must: Vec<(u32, u32)> = items.iter().filter(|(a, b)| *a < e && *b > s).cloned().collect();
+    let may: Vec<(u32, u32)> = items.iter().filter(|(a, b)| *a <= e && *b >= s).cloned().collect();
+    let gg: Vec<(u32, u32)> = g.iter().map(|x| (x.0, x.1)).collect();
+    let ok = gg.windows(2).all(|w| w[0].0 < w[1].0) && must.iter().all(|m| gg.contains(m)) && gg.iter().all(|x| may.contains(x));
+    if ok {
+        Ok(())
+    } else {
+        Err(format!("bigBed {} [{},{}): got {:?}, linear scan must {:?} may {:?}", name, s, e, gg, must, may))
+    }
+}
+
+fn c05_wig_q<R: bigtools::BBIFileRead>(
+    rd: &mut BigWigRead<R>,
+    name: &str,
+    s: u32,
+    e: u32,
+    items: &[(u32, u32)],
+) -> Result<(), String> {
+    let g = rd
+        .get_interval(name, s, e)
+        .map_err(|e| format!("query error: {}", e))
+        .and_then(collect_wig)?;
+    let want: Vec<(u32, u32)> =
+        items.iter().filter(|(a, b)| *a < e && *b > s).map(|(a, b)| ((*a).max(s), (*b).min(e))).collect();
+    let gg: Vec<(u32, u32)> = g.iter().map(|x| (x.0, x.1)).collect();
+    if gg == want {
+        Ok(())
+    } else {
+        Err(format!("bigWig {} [{},{}): got {:?}, linear scan {:?}", name, s, e, gg, want))
+    }
+}
 
 impl Check for C05 {
     type Case = C05Case;
@@ -1033,16 +1080,20 @@ impl Check for C05 {
                     if nchrom > n {
                         continue;
                     }
-                    v.push(C05Case { n, b, nchrom, bed: false });
+                    v.push(C05Case { n, b, nchrom, bed: false, nested: false });
                     if nchrom == 1 || n % 3 == 0 {
-                        v.push(C05Case { n, b, nchrom, bed: true });
+                        v.push(C05Case { n, b, nchrom, bed: true, nested: false });
+                    }
+                    if nchrom == 1 || n % 3 == 1 {
+                        v.push(C05Case { n, b, nchrom, bed: true, nested: true });
                     }
                 }
             }
         }
         // a few large fan-outs so that node counts near the u16 child count are not special
-        v.push(C05Case { n: 300, b: 256, nchrom: 2, bed: false });
-        v.push(C05Case { n: 1000, b: 10, nchrom: 3, bed: false });
+        v.push(C05Case { n: 300, b: 256, nchrom: 2, bed: false, nested: false });
+        v.push(C05Case { n: 1000, b: 10, nchrom: 3, bed: false, nested: false });
+        v.push(C05Case { n: 300, b: 7, nchrom: 2, bed: true, nested: true });
         Box::new(v.into_iter())
     }
     fn run(&self, c: &C05Case, out: &mut Outcome) {
@@ -1052,9 +1103,10 @@ impl Check for C05 {
         for i in 0..c.n {
             let ci = (i * c.nchrom / c.n) as usize;
             let j = per[ci].len() as u32;
-            per[ci].push((3 * j + 1, 3 * j + 3));
+            let e = if c.nested && j % 4 == 0 { 3 * j + 15 } else { 3 * j + 3 };
+            per[ci].push((3 * j + 1, e));
         }
-        let len = 3 * c.n + 4;
+        let len = 3 * c.n + 16;
         let mut o = Opts::base();
         o.ips = 1;
         o.bs = c.b;
@@ -1164,7 +1216,8 @@ impl Check for C05 {
                 if big && !(j < 2 || j + 2 >= maxitems || near(c.b) || near(c.b * c.b)) {
                     continue;
                 }
-                for p in [3 * j + 1, 3 * j + 3] {
+                let long_end = if c.nested && j % 4 == 0 { 3 * j + 15 } else { 3 * j + 3 };
+                for p in [3 * j + 1, 3 * j + 3, long_end] {
                     coords.insert(p.saturating_sub(1));
                     coords.insert(p);
                     coords.insert(p + 1);
@@ -1187,32 +1240,24 @@ impl Check for C05 {
                                 continue;
                             }
                             out.count("index_queries", 1);
-                            let got = rd
-                                .get_interval(name, s, e)
-                                .map_err(|e| format!("{}", e))
-                                .and_then(collect_bed);
-                            match got {
-                                Err(err) => out.fail("query_error", &[], format!("{} [{},{}): {}", name, s, e, err)),
-                                Ok(g) => {
-                                    let must: Vec<(u32, u32)> = file_items[ci]
-                                        .iter()
-                                        .filter(|(a, b)| *a < e && *b > s)
-                                        .cloned()
-                                        .collect();
-                                    let may: Vec<(u32, u32)> = file_items[ci]
-                                        .iter()
-                                        .filter(|(a, b)| *a <= e && *b >= s)
-                                        .cloned()
-                                        .collect();
-                                    let gg: Vec<(u32, u32)> = g.iter().map(|x| (x.0, x.1)).collect();
-                                    let ok = gg.windows(2).all(|w| w[0].0 < w[1].0)
-                                        && must.iter().all(|m| gg.contains(m))
-                                        && gg.iter().all(|x| may.contains(x));
-                                    if !ok {
+                            if let Err(m) = c05_bed_q(&mut rd, name, s, e, &file_items[ci]) {
+                                out.fail("index_search_differs_from_linear_scan", &[], m);
+                            }
+                            // the caching reader, fresh for this first query, then every whole
+                            // chromosome: nodes cached while answering a narrow query must serve
+                            // every later one
+                            if !big || e - s <= 4 {
+                                out.count("cached_first_query_histories", 1);
+                                let mut cr = BigBedRead::open(Cursor::new(bytes.clone())).unwrap().cached();
+                                if let Err(m) = c05_bed_q(&mut cr, name, s, e, &file_items[ci]) {
+                                    out.fail("cached_index_search_differs_from_linear_scan", &[], format!("first query: {}", m));
+                                }
+                                for (cj, nm) in names.iter().enumerate() {
+                                    if let Err(m) = c05_bed_q(&mut cr, nm, 0, len, &file_items[cj]) {
                                         out.fail(
-                                            "index_search_differs_from_linear_scan",
+                                            "cached_index_search_differs_from_linear_scan",
                                             &[],
-                                            format!("bigBed {} [{},{}): got {:?}, linear scan must {:?} may {:?}", name, s, e, gg, must, may),
+                                            format!("after {} [{},{}): {}", name, s, e, m),
                                         );
                                     }
                                 }
@@ -1246,25 +1291,22 @@ impl Check for C05 {
                                 continue;
                             }
                             out.count("index_queries", 1);
-                            let got = rd
-                                .get_interval(name, s, e)
-                                .map_err(|e| format!("{}", e))
-                                .and_then(collect_wig);
-                            match got {
-                                Err(err) => out.fail("query_error", &[], format!("{} [{},{}): {}", name, s, e, err)),
-                                Ok(g) => {
-                                    if s < e {
-                                        let want: Vec<(u32, u32)> = file_items[ci]
-                                            .iter()
-                                            .filter(|(a, b)| *a < e && *b > s)
-                                            .map(|(a, b)| ((*a).max(s), (*b).min(e)))
-                                            .collect();
-                                        let gg: Vec<(u32, u32)> = g.iter().map(|x| (x.0, x.1)).collect();
-                                        if gg != want {
+                            if s < e {
+                                if let Err(m) = c05_wig_q(&mut rd, name, s, e, &file_items[ci]) {
+                                    out.fail("index_search_differs_from_linear_scan", &[], m);
+                                }
+                                if !big || e - s <= 4 {
+                                    out.count("cached_first_query_histories", 1);
+                                    let mut cr = BigWigRead::open(Cursor::new(bytes.clone())).unwrap().cached();
+                                    if let Err(m) = c05_wig_q(&mut cr, name, s, e, &file_items[ci]) {
+                                        out.fail("cached_index_search_differs_from_linear_scan", &[], format!("first query: {}", m));
+                                    }
+                                    for (cj, nm) in names.iter().enumerate() {
+                                        if let Err(m) = c05_wig_q(&mut cr, nm, 0, len, &file_items[cj]) {
                                             out.fail(
-                                                "index_search_differs_from_linear_scan",
+                                                "cached_index_search_differs_from_linear_scan",
                                                 &[],
-                                                format!("bigWig {} [{},{}): got {:?}, linear scan {:?}", name, s, e, gg, want),
+                                                format!("after {} [{},{}): {}", name, s, e, m),
                                             );
                                         }
                                     }
